@@ -48,6 +48,18 @@ class QuestionHistory:
             return
         self._history[question] = (now, known_answers)
 
+    def touch(self, question: DNSQuestion, now: _float) -> bool:
+        """Note that a remembered question was heard again, with the known answers it was remembered with.
+
+        Returns False when the question is not remembered.
+        """
+        previous_question = self._history.get(question)
+        if previous_question is None:
+            return False
+        if previous_question[0] < now:
+            self._history[question] = (now, previous_question[1])
+        return True
+
     def suppresses(self, question: DNSQuestion, now: _float, known_answers: Set[DNSRecord]) -> bool:
         """Check to see if a question should be suppressed.
 
